@@ -46,7 +46,7 @@ def _solve_one(job):
     try:
         # portfolio: the plain CDCL(T) core first (instant on linear/propositional conflicts, where the default
         # strategy would first spend a fixed ~14 s in nlsat), then z3's default strategy with the full budget
-        for tac, budget in (('smt', min(4000, timeout_ms)), (None, timeout_ms)):
+        for tac, budget in (('smt', min(2000, timeout_ms)), (None, timeout_ms)):
             s = z3.Tactic(tac).solver() if tac else z3.Solver()
             s.set('timeout', budget)
             s.from_string(text)
